@@ -25,16 +25,19 @@ var rootPrincipal = scen.Principal{ID: "R", Keys: []string{"root"}}
 // polShape is the compact, mutable description the generator evolves; it is
 // expanded to a scen.Policy by build().
 type polShape struct {
-	Main     []string          `json:"main"` // keys authorized for main
-	MainThr  int               `json:"main_thr"`
-	Rel      []string          `json:"rel"` // keys of the top-level rel rule
-	RelThr   int               `json:"rel_thr"`
-	RelDeleg int               `json:"rel_deleg"` // 0 none, 1 one delegated file, 2 two levels
-	Rel1     []string          `json:"rel1"`
-	Rel1Thr  int               `json:"rel1_thr"`
-	Rel2     []string          `json:"rel2"`
-	Rel2Thr  int               `json:"rel2_thr"`
-	Globals  []scen.GlobalRule `json:"globals,omitempty"`
+	Main     []string `json:"main"` // keys authorized for main
+	MainThr  int      `json:"main_thr"`
+	Rel      []string `json:"rel"` // keys of the top-level rel rule
+	RelThr   int      `json:"rel_thr"`
+	RelDeleg int      `json:"rel_deleg"` // 0 none, 1 one delegated file, 2 two levels
+	Rel1     []string `json:"rel1"`
+	Rel1Thr  int      `json:"rel1_thr"`
+	Rel2     []string `json:"rel2"`
+	Rel2Thr  int      `json:"rel2_thr"`
+	// Rel1Broad: the rule inside the delegated file claims git:refs/heads/* although
+	// its file is only reachable through the rel/* rule (scope must not leak to main)
+	Rel1Broad bool              `json:"rel1_broad,omitempty"`
+	Globals   []scen.GlobalRule `json:"globals,omitempty"`
 }
 
 func principalsOf(keysets ...[]string) ([]scen.Principal, map[string]bool) {
@@ -77,7 +80,11 @@ func (s polShape) build() scen.Policy {
 	if len(s.Rel) > 0 && s.RelDeleg >= 1 && len(s.Rel1) > 0 {
 		prs, _ := principalsOf(s.Rel1, s.Rel2)
 		f1 := scen.RuleFile{Name: "protect-rel", Principals: prs, Signers: append([]string{}, s.Rel[:s.RelThr]...)}
-		f1.Rules = append(f1.Rules, scen.Rule{Name: "rel-inner", Patterns: []string{"git:refs/heads/rel/*"}, Principals: ids(s.Rel1), Threshold: s.Rel1Thr})
+		inner := "git:refs/heads/rel/*"
+		if s.Rel1Broad {
+			inner = "git:refs/heads/*"
+		}
+		f1.Rules = append(f1.Rules, scen.Rule{Name: "rel-inner", Patterns: []string{inner}, Principals: ids(s.Rel1), Threshold: s.Rel1Thr})
 		p.Files = append(p.Files, f1)
 		if s.RelDeleg >= 2 && len(s.Rel2) > 0 {
 			prs2, _ := principalsOf(s.Rel2)
@@ -124,6 +131,7 @@ func randShape(r *rand.Rand) polShape {
 	s.Rel1Thr = thr(r, len(s.Rel1))
 	s.Rel2 = subset(r, 1)
 	s.Rel2Thr = thr(r, len(s.Rel2))
+	s.Rel1Broad = r.IntN(3) == 0
 	return s
 }
 
